@@ -1,6 +1,7 @@
 mod c01;
 mod c04;
 mod c04w;
+mod c05c;
 mod c06s;
 mod c07;
 mod c08;
@@ -107,6 +108,8 @@ fn main() {
                 "c14_scope" => ("C14", c14s::part_scope(tier)),
                 "c03_inl" => ("C03", c01::part_c03_inlined(tier)),
                 "c19_regs" => ("C19", c19r::part_registers(tier, "C19")),
+                "c04_c" => ("C04", c04::part_c_binary(tier)),
+                "c05_c" => ("C05", c05c::part_c_frames(tier)),
                 "c05_opt" => ("C05", c19r::part_registers(tier, "C05")),
                 "c17_objects" => ("C17", c18s::part_names_across_objects(tier)),
                 "c15_dap" => ("C15", c15d::part_dap_data(tier)),
@@ -186,11 +189,13 @@ fn run_check(id: &str, tier: Tier) -> i32 {
             r.parts.push(c12::part_c05_dap_frames(tier));
             r.parts.push(mt::part_c05_threads(tier));
             r.parts.push(c19r::part_registers(tier, "C05"));
+            r.parts.push(c05c::part_c_frames(tier));
             finish(r)
         }
         "C04" => {
             let mut r = Report::new("C04", tier, "exploration");
             r.parts.push(c04::part_sweep(tier));
+            r.parts.push(c04::part_c_binary(tier));
             finish(r)
         }
         "C06" => {
